@@ -7,6 +7,7 @@
    The harness (harness/props/c09_trace.py) drives real objects with seeded random calls and logs for
    every call what it OBSERVED on the public interface:
      Construct     cls, K, pe ("zero" | "hi")
+     SetAttr       attr (iPu | noise_var | pe) assigned on the live object, pe ("zero" | "hi") after it
      SetMetric     name, supplied keys (ns, mod, plen; 0 / "none" = absent), out = "ok" | "rejected"
                    (AttributeError), name_after = metric_name after the call
      NewChannel    N, rE
@@ -42,8 +43,11 @@ After(ev) ==
   LET same == [obj |-> obj, metric |-> metric, chan |-> chan, last |-> last, mm |-> <<>>]
   IN
   CASE ev.op = "Construct" ->
-         [same EXCEPT !.obj = [cls |-> ev.cls, K |-> ev.K, p |-> "hi", nv |-> "lo", pe |-> IF ev.cls = "BD" THEN "na" ELSE ev.pe],
+         [same EXCEPT !.obj = [cls |-> ev.cls, K |-> ev.K, p |-> "hi", nv |-> "lo", pe |-> IF ev.cls = "BD" THEN "na" ELSE ev.pe, p0 |-> "na"],
                       !.mm = IF obj # NoObj THEN <<"second construct">> ELSE <<>>]
+    [] ev.op = "SetAttr" ->          \* only pe = 0 / pe > 0 matters to the machine
+         [same EXCEPT !.obj = IF ev.attr = "pe" THEN [obj EXCEPT !.pe = ev.pe] ELSE obj,
+                      !.mm = IF obj = NoObj \/ (ev.attr = "pe" /\ obj.cls = "BD") THEN <<"not enabled">> ELSE <<>>]
     [] ev.op = "SetMetric" ->
          LET a == [ns |-> ev.ns, mod |-> ev.mod, plen |-> ev.plen]
              acc == Accepted(ev.name, a)
